@@ -2,7 +2,7 @@ from lanes import *  # noqa
 
 PROP = {
         "level": "exploration",
-        "level_text": "Seeded exploration with a reference interpreter as oracle: every case (leaf tables, ambient context, filter tree, optional call-site filter tree, destination tree up to depth 5 over And/Or/Option/Box/Arc/&/dyn/wrap(from_filter)/wrap(from_fn)/Runtime-as-emitter) is run on several events through thirteen emission paths (Runtime::emit, emit_core::emit, Emitter for Runtime, emit! call sites with and without `when:`, __private_emit, an AmbientSlot runtime, direct Emitter::emit, plus a statically typed filter over the same leaves as the runtime filter of a typed Runtime and as a call-site `when:`) and the delivery multiset and event snapshot at every recording leaf, what every filter leaf was shown, the answer of every filter tree and the flush fan-out are compared with the model; 44 statically typed generic compositions are compared with the model and with erased views of the same value. Held-on-what-was-observed over 10^5 (quick) to 10^7 (thorough) evaluations, not a proof over all trees; Miri and ASan watch the erased dispatch and the AmbientSlot pointer cast while a scaled-down workload runs.",
+        "level_text": "Seeded exploration with a reference interpreter as oracle: every case (leaf tables, ambient context, filter tree, optional call-site filter tree, destination tree up to depth 5 over And/Or/Option/Box/Arc/&/dyn/wrap(from_filter)/wrap(from_fn)/Runtime-as-emitter) is run on several events through seventeen emission paths (Runtime::emit, emit_core::emit, Emitter for Runtime, emit! call sites with and without `when:`, __private_emit, an AmbientSlot runtime, direct Emitter::emit, plus a statically typed filter over the same leaves as the runtime filter of a typed Runtime and as a call-site `when:`, plus six hand-written emit! / level-macro / evt! call sites whose properties are renamed with #[emit::key] so that key order differs from identifier order, with #[emit::optional] and cfg'd properties, through erased, AmbientSlot and typed runtimes with and without `when:`) and the delivery multiset and event snapshot at every recording leaf, what every filter leaf was shown, the answer of every filter tree and the flush fan-out are compared with the model; 44 statically typed generic compositions are compared with the model and with erased views of the same value. Held-on-what-was-observed over 10^5 (quick) to 10^7 (thorough) evaluations, not a proof over all trees; Miri and ASan watch the erased dispatch and the AmbientSlot pointer cast while a scaled-down workload runs.",
         "level_note": "Trusts the interpreter in harness/mon/src/shared/c01_trees.rs (written from the statement: own props then ambient, own extent else the clock, And/Or/Option/wrapper semantics) and the recording leaves in c01_model.rs. With ThreadLocalCtxt the order among ambient props is the context's own (hash map) and is read back before the case is judged.",
         "technique": "runtime monitoring: reference-interpreter oracle over seeded combinator trees and events, recording leaves at every destination and filter leaf; Miri / ASan builds of the same monitor",
         "assumptions": [
